@@ -29,6 +29,8 @@ def run(ctx):
     # longest first
     jobs.sort(key=lambda j: -int(j[1][2]) if str(j[1][2]).isdigit() else 0)
     common.parallel(lambda j: common.run_harness(ctx, j[0], j[1], label=j[2]), jobs)
+    if ctx.thorough:
+        common.huge_lengths(ctx, ["aead:0", "aead:1", "aead:2", "aead-ad:0", "aead-ad:1", "aead-ad:2", "inc:0", "inc:1", "inc:2", "masked:1"])
     ctx.assumptions += [
         "reference model = ASCON v1.2 as bound to all shipped KAT vectors (frozen digests in /verif/ref)",
         "value completeness per shape rests on the linearised-permutation argument (DESIGN 3.1) + C08 + C11; real-permutation runs use 4 value patterns and single-bit walks",
